@@ -93,6 +93,13 @@ func apiCases(tier string) []apiCase {
 		cs = append(cs, apiCase{prop: "C05", kind: "batch", mix: mix, park: false, par: 6, rounds: sc(40, 400)})
 	}
 	cs = append(cs, apiCase{prop: "C05", kind: "batch", mix: "same", park: false, par: 8, rounds: sc(120, 2000)})
+	// hand-built nodes files (srv_api_nodesfile.go): unknown (zero) ids, own id, ids not valid for their address
+	// under an enforcing node, duplicates, crowded buckets, blocked addresses, port 0, address spellings
+	for _, mix := range []string{"open", "secure", "blocked"} {
+		cs = append(cs, apiCase{prop: "C05", kind: "nodesfile", mix: mix, park: false, par: 3, rounds: sc(5, 40)})
+		cs = append(cs, apiCase{prop: "C05", kind: "nodesfile", mix: mix, park: true, par: 3, rounds: sc(3, 20)})
+	}
+	cs = append(cs, apiCase{prop: "C05", kind: "nodesfile", mix: "serial", park: false, par: 1, rounds: sc(6, 60)})
 	// ---- C11
 	cs = append(cs, apiCase{prop: "C11", kind: "ps-direct", par: 8, rounds: sc(3000, 40000)})
 	cs = append(cs, apiCase{prop: "C11", kind: "ps-direct", par: 3, rounds: sc(1500, 10000)})
@@ -149,6 +156,8 @@ func apiEngine(seed uint64, tier string, args []string) {
 			runApiMaint(seed, i, c)
 		case "batch":
 			runApiBatch(seed, i, c)
+		case "nodesfile":
+			runApiNodesFile(seed, i, c)
 		case "ps-direct":
 			runApiPeersDirect(seed, i, c)
 		case "ps-wire":
@@ -288,6 +297,12 @@ type apiSrv struct {
 	prev       map[string]bool // the table at the last model line
 	nround     int
 	ncheck     int
+
+	// nodes-file cases (srv_api_nodesfile.go): a node that may enforce the security extension and
+	// may have a blocklist; their table lines are `atables` (RunApi.ra_accept_s)
+	sline bool
+	nosec bool
+	bl    *blocklist
 }
 
 // apiCounter counts goroutines in flight (a WaitGroup must not be waited on while new work is added)
@@ -317,12 +332,16 @@ func apiOracle(prop, key, format string, a ...interface{}) {
 }
 
 func newApiSrv(idx int, c apiCase, r *rng, resend time.Duration) *apiSrv {
-	a := &apiSrv{idx: idx, c: c, conn: newFakeConn(), responders: map[string]apiNode{}, must: map[string]bool{}, may: map[string]int{}, prev: map[string]bool{}}
+	return newApiSrvOpt(idx, c, r, resend, true, nil)
+}
+
+func newApiSrvOpt(idx int, c apiCase, r *rng, resend time.Duration, nosec bool, bl *blocklist) *apiSrv {
+	a := &apiSrv{idx: idx, c: c, conn: newFakeConn(), responders: map[string]apiNode{}, must: map[string]bool{}, may: map[string]int{}, prev: map[string]bool{}, nosec: nosec, bl: bl}
 	copy(a.root[:], r.bytes(20))
 	cfg := &dht.ServerConfig{
 		NodeId:           a.root,
 		Conn:             a.conn,
-		NoSecurity:       true,
+		NoSecurity:       nosec,
 		StartingNodes:    func() ([]dht.Addr, error) { return nil, nil },
 		QueryResendDelay: func() time.Duration { return resend },
 		Logger:           log.NewLogger().FilterLevel(log.Critical),
@@ -335,6 +354,9 @@ func newApiSrv(idx int, c apiCase, r *rng, resend time.Duration) *apiSrv {
 			}
 			return true
 		},
+	}
+	if bl != nil {
+		cfg.IPBlocklist = bl
 	}
 	a.conn.onWrite = func(b []byte, to *net.UDPAddr) {
 		m, ok := decodeLikeServer(b)
@@ -587,7 +609,11 @@ func (a *apiSrv) checkTable(line bool) {
 	sort.Strings(must)
 	sort.Strings(may)
 	sort.Strings(obs)
-	emit("atable %d.%d %s %d %s %d %s => %d %s", a.idx, a.nround, hx(a.root[:]), len(must), strings.Join(must, " "), len(may), strings.Join(may, " "), len(obs), strings.Join(obs, " "))
+	if a.sline {
+		emit("atables %d.%d %d %s %d %s %d %s => %d %s", a.idx, a.nround, b2i(a.nosec), hx(a.root[:]), len(must), strings.Join(must, " "), len(may), strings.Join(may, " "), len(obs), strings.Join(obs, " "))
+	} else {
+		emit("atable %d.%d %s %d %s %d %s => %d %s", a.idx, a.nround, hx(a.root[:]), len(must), strings.Join(must, " "), len(may), strings.Join(may, " "), len(obs), strings.Join(obs, " "))
+	}
 	out.Flush()
 }
 
